@@ -156,4 +156,15 @@ def o5(tier):
 
 def run(tier, seed, only=None):
     obs = [('O1', o1), ('O2', o2), ('O3', o3), ('O4', o4), ('O5', o5)]
-    return [f(tier) for k, f in obs if not only or k in only]
+    out = []
+    for k, f in obs:
+        if only and k not in only:
+            continue
+        try:
+            out.append(f(tier))
+        except Exception as e:                      # an engine that cannot read the tree is an inconclusive obligation, not a crash of the whole check
+            from vlib.common import Result
+            rr = Result(k, 'sqlsym' if type(e).__name__ == 'SqlError' else 'mirsym', f.__doc__ or f.__name__)
+            rr.broken(f'{type(e).__name__}: {e}')
+            out.append(rr)
+    return out
